@@ -25,7 +25,7 @@ na = [{"property_id": pid, "reason": props.NOT_APPLICABLE.get(pid, "check not bu
       for pid in allp if not (props.PROPS.get(pid) or {}).get("registered")]
 m = {
     "version": 1,
-    "setup_cmd": "python3 driver/build.py engine",
+    "setup_cmd": "python3 driver/build.py engine && python3 tools/selftest.py 1 6",
     "hooks": {"guard": "ASSEMBLYLINE_VERIF", "enable": "the checks compile /repo/src/*.c themselves (driver/build.py) with -DASSEMBLYLINE_VERIF; no guarded hook exists in /repo at present",
               "baseline_off_cmd": "/verif/tools/baseline.sh", "source_commits": [], "add_only": True},
     "engines": [{"name": "alverif", "path": "/verif/engine", "serves_properties": [c["property_id"] for c in checks if c["engine"] == "alverif"],
